@@ -190,6 +190,11 @@ class Interp:
             return "P%d%s" % (l, "".join(k for k in place_key(pl)[1:] if k != "deref"))
         nm = self.body.local_name(l)
         if pl["p"]:
+            # a field read through a local (a `&mut` alias, an iterator item, a pattern binding): named after the struct and
+            # field, not after the local, so that renaming the local or introducing an alias does not change the root
+            flds = [x for x in pl["p"] if isinstance(x, dict) and "f" in x and x.get("adt")]
+            if flds and isinstance(pl["p"][-1], dict) and "f" in pl["p"][-1] and pl["p"][-1].get("adt"):
+                return "F:%s.%s" % (pl["p"][-1]["adt"].split("::")[-1].split("<")[0], pl["p"][-1]["f"])
             return "F:" + self.body.place_str(pl)
         return "L:" + (nm or "_%d" % l)
 
@@ -369,6 +374,11 @@ class Interp:
                 if is_int_ty(ty):
                     sid = self.read_place(st, src, at)
                     self.bind(st, key, sid)
+                elif ty.startswith("&") and not any(isinstance(x, str) and x.startswith("[_") for x in skey):
+                    # copy of a reference held in a place (`r = copy env.0`): `*r` is the same memory as `*(env.0)`
+                    self.kill(st, key)
+                    ns = self.new_sym(("refcopy", at), None, None, frozenset(), ("refto", skey + ("deref",), ty.startswith("&mut ")), ty)
+                    st.cells[key] = ns
                 else:
                     self.kill(st, key)
                 return
